@@ -46,6 +46,17 @@ def matrix(thorough):
         cases.append((f"gas-{fmt}", {"files": [{"name": f"g.{fmt}", "content": gas_file(fmt) if fmt != "krome" else open(f"{TD}/minimal.krome").read()}], "network": {"filelist": f"g.{fmt}", "fileformats": fmt}}, backs))
     for nm, f, fmt in (("minimal.kida", "minimal.kida", "kida"), ("minimal.umist", "minimal.umist", "umist"), ("minimal.leeds", "minimal.leeds", "leeds"), ("minimal.krome", "minimal.krome", "krome"), ("minimal.ucl", "minimal.ucl", "uclchem")):
         cases.append((f"fixture-{nm}", {"network": {"filelist": f"{TD}/{f}", "fileformats": fmt}}, ["dense"]))
+    # photoreactions of the molecules that formats treat specially (self-shielding column densities are parameters
+    # that every format using them has to register itself)
+    for fmt, code, marker in (("kida", 2, "Photon"), ("umist", "PH", "PHOTON"), ("leeds", 4, "PHOTON"), ("uclchem", "PHOTON", None), ("naunet", 102, "PHOTON")):
+        L = []
+        for x, ps in (("H2", ["H", "H"]), ("CO", ["C", "O"]), ("N2", ["N", "N"]), ("H2O", ["OH", "H"])):
+            L.append({"reactants": [x] + ([marker] if marker else []), "products": ps, "a": "2.3e-10" if fmt != "leeds" else "2.30E-10", "b": "0.0" if fmt != "leeds" else "0.00", "c": "3.9",
+                      "tmin": "0" if fmt != "naunet" else "-1.00", "tmax": "0" if fmt != "naunet" else "-1.00", "idx": len(L) + 1, "code": code})
+        L.append({"reactants": ["H", "H"], "products": ["H2"], "a": "1.0e-17" if fmt != "leeds" else "1.00E-17", "b": "0.0" if fmt != "leeds" else "0.00", "c": "0.0",
+                  "tmin": "0" if fmt != "naunet" else "-1.00", "tmax": "0" if fmt != "naunet" else "-1.00", "idx": len(L) + 1, "code": {"kida": 3, "umist": "NN", "leeds": 1, "uclchem": "", "naunet": 100}[fmt]})
+        from .rates_props import file_text
+        cases.append((f"gas-photo-{fmt}", {"files": [{"name": f"ph.{fmt}", "content": file_text(fmt, L)}], "network": {"filelist": f"ph.{fmt}", "fileformats": fmt}}, ["dense", "odeint"]))
     # grain models
     for name, fmt, model, mk, user in c11.CASES[:5]:
         text = "\n".join(encoders.ENC[fmt](r) for r in mk()) + "\n"
